@@ -16,7 +16,7 @@ Not decided: fields other than the state on a tie, the trim step, behaviour over
 """
 from .lib.hir import *
 from .lib import pathcond as pc
-from .lib.x_prov import Prov, tails, pat_binds
+from .lib.x_prov import Prov, tails, pat_binds, find_loop, loop_parts
 from .lib import x_merge as M
 
 META = dict(
@@ -237,7 +237,6 @@ def merge_body(ctx, name, path):
     ctx.check(base == {"p0"}, R, fn["fn"], "starts-from-newer", "working map = self.map.clone()",
               f"{name}: the working map is initialised from {sorted(base)}, expected from self (the newer side) only", **loc)
     # the loop walks the older side
-    from .C10 import find_loop, loop_parts
     loops = find_loop(fn)
     ok = False
     if len(loops) == 1:
